@@ -55,6 +55,21 @@ def url_path_of(r, zm):
     return None
 
 
+def caller_ids(ctx, r, zm):
+    """user id / process id of the caller in a counterexample model (a decision may hang on them), if the path reads them"""
+    out = {}
+    cl = origin(r.args[4])
+    for nm, ty, key in (("userId", "u64", "user_id"), ("processId", "u32", "process_id")):
+        try:
+            f = cl.child(("f", ctx.field("Claims", nm)), ty)
+            v = zm.eval(f.scalar(ty), model_completion=False)
+            if z3.is_bv_value(v):
+                out[key] = v.as_long()
+        except Exception:
+            pass
+    return out
+
+
 def concretize(ctx, r, zm):
     """Concrete (rules present?, rule decision, mode) of a counterexample model on path r."""
     ent = [e for e in r.events if e.kind == "enter" and e.callee.endswith("::authorize") and len(e.args) == 4]
@@ -130,6 +145,9 @@ def check(rep, tier, seed):
     ctx = Ctx("agent")
     rep.extra["mir_dump"] = {"cache_hit": ctx.dump.cache_hit, "tree_hash": ctx.dump.hash, "seconds": round(ctx.dump.seconds, 1)}
     check_handler_enforces(rep, ctx)
+    # "a caller that is not running elevated": what the elevation bit of the claims means - the record's is_admin word is exactly 1
+    import p_c07
+    p_c07.check_claims_unit(rep, ctx)
     import p_c01
     p_c01.check_empty_response(rep, ctx, "C03")
     check_authorize(rep, ctx)
@@ -160,7 +178,7 @@ def check_authorize(rep, ctx):
                 present, allowed, mode = concretize(ctx, r, bad[2])
                 tn = "c03_path%d_%s" % (i, label.lower())
                 cases.append((tn, replay.authorize_case(tn, ipc, port, False, present, allowed, mode, "r == AuthorizeResult::Forbidden",
-                                                        "non-elevated caller to %s must be Forbidden" % label, url_path=url_path_of(r, bad[2])), qn))
+                                                        "non-elevated caller to %s must be Forbidden" % label, url_path=url_path_of(r, bad[2]), **caller_ids(ctx, r, bad[2])), qn))
                 models.append(bad[0]); dts.append(bad[1])
         prem = z3.And(ipz == z3.StringVal("127.0.0.1"), portz == 3080)
         qn = "path %d: destination = proxy listener => Forbidden (any caller)" % i
@@ -170,7 +188,7 @@ def check_authorize(rep, ctx):
             el = z3.is_true(bad[2].eval(elev, model_completion=True))
             tn = "c03_path%d_self" % i
             cases.append((tn, replay.authorize_case(tn, "127.0.0.1", 3080, el, present, allowed, mode, "r == AuthorizeResult::Forbidden",
-                                                    "a request whose destination is the proxy listener must be Forbidden", url_path=url_path_of(r, bad[2])), qn))
+                                                    "a request whose destination is the proxy listener must be Forbidden", url_path=url_path_of(r, bad[2]), **caller_ids(ctx, r, bad[2])), qn))
             models.append(bad[0]); dts.append(bad[1])
         if d == OK:
             witness_elev_ok.append(z3.And(r.pc + [ipz == z3.StringVal(WS), portz == 80, elev]))
